@@ -80,9 +80,14 @@ class FakeSocket(object):
             raise OSError(9, 'Bad file descriptor')
         self.sent += bytes(data)
 
+    SEND_CAP = 5
+
     def send(self, data, flags=0):
-        self.sendall(data)
-        return len(data)
+        """one attempt, like the system call: the peer's window takes at most SEND_CAP bytes; the caller has to look at
+        the count returned and go on (sendall does)"""
+        part = bytes(data)[:self.SEND_CAP]
+        self.sendall(part)
+        return len(part)
 
     # -- the rest of what socketserver touches ----------------------------------------------------
     def makefile(self, mode='r', buffering=None, **kw):
